@@ -1,4 +1,5 @@
 import QuaiVerif.Model.Payout
+import QuaiVerif.Model.Reward
 /- Line-protocol front end of the payout-schedule model (area `c13chain`). -/
 namespace QuaiVerif.Payout
 
@@ -29,6 +30,11 @@ def step (d : DState) (ws : List String) : DState × String :=
         let r := acctUpTo d.depths f d.rs a ⟨false, 0⟩ h
         s!"{a}={r.bal}/{if r.live then 1 else 0}"
       (d, " ".intercalate (old ++ new))
+    | _, _ => (d, "bad-op")
+  | "split" :: r :: es => match r.toNat?, es.mapM String.toNat? with
+    | some r, some es =>
+      let vs := Reward.split r es
+      (d, " ".intercalate ((List.range vs.length).zip vs |>.map fun (i, v) => s!"r{i}={v}"))
     | _, _ => (d, "bad-op")
   | _ => (d, "bad-op")
 
